@@ -165,6 +165,31 @@ func §E() {
 			p.Files = map[string]string{"§data.txt": "hello embed\n"}
 			return p
 		}(),
+		func() *e1.Program {
+			p := Raw("by-embed-directive-in-grouped-var-block", `
+var (
+	//go:embed §data.txt
+	§banner string
+
+	// §plain has an ordinary doc comment
+	§plain = 3
+)
+
+var §lit = func() ITER[int] GEN[int]{
+	YIELD(1)
+	RETNIL
+}GEN
+
+func §E() {
+	tr.V(1, §banner)
+	tr.V(2, §plain)
+}
+`, "directive:embed")
+			p.Native = true
+			p.Imports = []string{"_embed"}
+			p.Files = map[string]string{"§data.txt": "grouped\n"}
+			return p
+		}(),
 		by("by-const-init-methods", `
 const §K = 3
 
